@@ -8,6 +8,43 @@ _NOTE = ('trusted base: the simulator itself (SimLoop, SimKernel, fake ZeroMQ) '
 _TECH = 'deterministic simulation with fault injection'
 
 META = {
+    'C01': {
+        'level': 'exploration',
+        'text': 'seeded random daemon lives with worker exits, external '
+                'kills, incr/decr/set/restart/reload/kill requests placed at '
+                'kernel-call boundaries, loop steps and virtual times; after '
+                'the faults stop the kernel process table must show exactly '
+                'numprocesses live workers per active watcher, equal to the '
+                'list reply, after a configuration-derived number of periodic '
+                'checks; then five further checks must neither spawn nor '
+                'signal (fixpoint); completed restart/reload replies are '
+                'checked for freshness of every live worker',
+        'note': _NOTE, 'technique': _TECH + ' (convergence and fixpoint '
+                'oracle on the simulated process table)'},
+    'C02': {
+        'level': 'fault_enumeration',
+        'text': 'seeded random lives plus a systematic sweep: for seeded base '
+                'scenarios (stop / restart / rm / quit on obedient, slow and '
+                'stubborn workers) a worker death (exit or SIGKILL) is '
+                'injected before every kernel call of the stop sequence for '
+                'every worker; at the reply every pid spawned before the '
+                'request must be reaped in the kernel, views must say '
+                'stopped/0/[]; afterwards any spawn for a stopped watcher '
+                'before a start-class request is a violation',
+        'note': _NOTE, 'technique': _TECH + ' (death at every kernel-call '
+                'boundary of the stop sequence)'},
+    'C05': {
+        'level': 'exploration',
+        'text': 'seeded random lives emphasising kill/signal requests '
+                'overlapping exclusive operations, stubborn and slow workers '
+                'and exec failures; virtual time consumed inside one loop '
+                'step is measured through the patched time.sleep (limit 0.25 '
+                's, unbounded spins detected and attributed by stack), '
+                'read-only requests must be answered when their dispatch '
+                'returns, accepted waiting requests within a configuration-'
+                'derived bound',
+        'note': _NOTE, 'technique': _TECH + ' (blocked-time accounting per '
+                'loop step, bounded-liveness oracle)'},
     'C09': {
         'level': 'exploration',
         'text': 'seeded random daemon lives (real Arbiter/Watcher/Controller '
